@@ -125,6 +125,7 @@ type evRec struct {
 	Kind  string // join, leave, update
 	Name  string
 	Addr  string
+	IP    []byte
 	Meta  string
 	Set   []string // Members-equivalent set captured in the callback ("" unknown)
 	SetOK bool
@@ -232,7 +233,7 @@ func (n *SimNode) event(kind string, nd *Node) {
 			n.sim.yield("evcb", n.name)
 		}
 	}
-	rec := evRec{T: n.sim.Now(), Kind: kind, Name: nd.Name, Addr: fmt.Sprintf("%s:%d", nd.Addr, nd.Port), Meta: string(nd.Meta)}
+	rec := evRec{T: n.sim.Now(), Kind: kind, Name: nd.Name, Addr: fmt.Sprintf("%s:%d", nd.Addr, nd.Port), IP: append([]byte(nil), nd.Addr...), Meta: string(nd.Meta)}
 	if held {
 		rec.Set, rec.SetOK = n.snapshotSet()
 	}
